@@ -67,6 +67,11 @@ func (x *fnExec) call(s *State, instr ssa.Instruction, c *ssa.CallCommon) []*Sta
 	if callee.Blocks == nil || !core.InModule(callee) {
 		return x.opaqueCall(s, instr, name, callee, args, resT, bindResult)
 	}
+	if in.Cfg.Modular != nil && len(in.stack) > 0 && in.Cfg.Modular(callee) {
+		in.ModularSeen[callee] = true
+		in.Notes["modular callee (verified separately for arbitrary arguments, opaque here): "+name]++
+		return x.opaqueModuleCall(s, instr, callee, args, resT, bindResult)
+	}
 	// unwrap synthetic wrappers (pointer-receiver wrappers, bound methods) by inlining them as ordinary code
 	onStack := false
 	for _, f := range in.stack {
@@ -84,9 +89,46 @@ func (x *fnExec) call(s *State, instr ssa.Instruction, c *ssa.CallCommon) []*Sta
 			in.emit(Finding{Site: instr, Kind: "analysis", Undecid: true, Detail: "call depth limit reached at " + name})
 		}
 		in.Notes["module call not inlined ("+why+"): "+name]++
+		if onStack {
+			// remember lengths of slices behind pointer arguments (hypothesis: they only grow)
+			type pre struct {
+				p PtrV
+				l Lin
+			}
+			var pres []pre
+			for _, a := range args {
+				if pv, ok := a.(PtrV); ok && pv.Cell != nil {
+					if root, ok := s.h.mem[pv.Cell]; ok {
+						if sv, ok := getPath(root, pv.Path).(SliceV); ok {
+							pres = append(pres, pre{pv, sv.Len})
+						}
+					}
+				}
+			}
+			outs := x.opaqueModuleCall(s, instr, callee, args, resT, bindResult)
+			for _, st := range outs {
+				for _, pr := range pres {
+					if root, ok := st.h.mem[pr.p.Cell]; ok {
+						if sv, ok := getPath(root, pr.p.Path).(SliceV); ok {
+							st.h.addFact(sv.Len.Sub(pr.l))
+						}
+					}
+				}
+			}
+			return outs
+		}
 		return x.opaqueModuleCall(s, instr, callee, args, resT, bindResult)
 	}
+	markCell, markReg := in.cellN, in.regionN
 	outs := in.Exec(callee, args, bind, s.h)
+	live := outs[:0]
+	for _, o := range outs {
+		if !o.Panicked {
+			in.gcHeap(o.H, markCell, markReg, o.Ret)
+			live = append(live, o)
+		}
+	}
+	outs = in.capOutcomes(live, resT)
 	var res []*State
 	for i, o := range outs {
 		if o.Panicked {
@@ -117,6 +159,189 @@ func (x *fnExec) call(s *State, instr ssa.Instruction, c *ssa.CallCommon) []*Sta
 		res = out
 	}
 	return res
+}
+
+// gcHeap drops cells and region versions created after the marks that are not reachable from
+// the returned value or from older cells (nothing else can refer to them).
+func (in *Interp) gcHeap(h *Heap, markCell, markReg int, ret Value) {
+	liveC := map[*Cell]bool{}
+	liveR := map[*Region]bool{}
+	var visit func(v Value, d int)
+	visit = func(v Value, d int) {
+		if v == nil || d > 8 {
+			return
+		}
+		switch t := v.(type) {
+		case PtrV:
+			if t.Cell != nil && !liveC[t.Cell] {
+				liveC[t.Cell] = true
+				if t.Cell.ID > markCell {
+					visit(h.mem[t.Cell], d+1)
+				}
+			}
+			if t.Reg != nil {
+				liveR[t.Reg] = true
+			}
+		case SliceV:
+			if t.Reg != nil {
+				liveR[t.Reg] = true
+			}
+		case ArrayV:
+			liveR[t.Reg] = true
+		case StructV:
+			for _, f := range t.F {
+				visit(f, d+1)
+			}
+		case TupleV:
+			for _, f := range t.F {
+				visit(f, d+1)
+			}
+		case IfaceV:
+			visit(t.Dyn, d+1)
+		case FuncV:
+			for _, b := range t.Bind {
+				visit(b, d+1)
+			}
+		}
+	}
+	visit(ret, 0)
+	for c, v := range h.mem {
+		if c.ID <= markCell {
+			visit(v, 0)
+		}
+	}
+	for c := range h.mem {
+		if c.ID > markCell && !liveC[c] {
+			delete(h.mem, c)
+		}
+	}
+	for r := range h.regver {
+		if r.ID > markReg && !liveR[r] {
+			delete(h.regver, r)
+		}
+	}
+	for r := range h.known {
+		if r.ID > markReg && !liveR[r] {
+			delete(h.known, r)
+		}
+	}
+}
+
+// capOutcomes bounds the number of distinct callee outcomes that continue separately in the caller.
+func (in *Interp) capOutcomes(outs []Outcome, resT types.Type) []Outcome {
+	maxOutcomes := in.Cfg.MaxOutcomes
+	if maxOutcomes == 0 {
+		maxOutcomes = 12
+	}
+	if len(outs) <= maxOutcomes {
+		return outs
+	}
+	// keep outcomes apart by nil-ness of an error / pointer result (success vs failure paths), join within groups
+	groups := map[string][]Outcome{}
+	var order []string
+	for _, o := range outs {
+		k := outcomeClass(o.Ret)
+		if _, ok := groups[k]; !ok {
+			order = append(order, k)
+		}
+		groups[k] = append(groups[k], o)
+	}
+	var res []Outcome
+	for _, k := range order {
+		g := groups[k]
+		if len(g) == 1 {
+			res = append(res, g[0])
+			continue
+		}
+		in.Notes["join: callee outcomes joined per result class (precision loss, sound)"]++
+		res = append(res, in.joinOutcomes(g, resT))
+	}
+	return res
+}
+
+func outcomeClass(v Value) string {
+	switch t := v.(type) {
+	case TupleV:
+		var parts []string
+		for _, f := range t.F {
+			parts = append(parts, outcomeClass(f))
+		}
+		return strings.Join(parts, ",")
+	case IfaceV:
+		return fmt.Sprintf("i%d", t.Nil)
+	case PtrV:
+		return fmt.Sprintf("p%d", t.Nil)
+	case BoolV:
+		if t.Kind == BConst {
+			return fmt.Sprintf("b%v", t.Const)
+		}
+		return "b?"
+	case SliceV:
+		if t.IsNil {
+			return "snil"
+		}
+		return "s"
+	}
+	return "_"
+}
+
+func (in *Interp) joinOutcomes(g []Outcome, resT types.Type) Outcome {
+	base := Outcome{Ret: g[0].Ret, H: g[0].H.clone(), Trail: []string{"(joined outcomes)"}}
+	for _, o := range g[1:] {
+		var pend []Lin
+		base.Ret = in.joinRet(base.Ret, o.Ret, resT, base.H, o.H, &pend)
+		for c, v := range base.H.mem {
+			ov, ok := o.H.mem[c]
+			if !ok {
+				base.H.mem[c] = in.unknownOf(c.T, "join", false)
+			} else {
+				base.H.mem[c] = in.joinValueH(v, ov, c.T, base.H, o.H, &pend)
+			}
+		}
+		var nf []Lin
+		for _, f := range base.H.facts {
+			for _, gf := range o.H.facts {
+				if f.Equal(gf) {
+					nf = append(nf, f)
+					break
+				}
+			}
+		}
+		base.H.facts = nf
+		for _, f := range pend {
+			base.H.addFact(f)
+		}
+		base.H.neqs = nil
+		for r, v := range o.H.regver {
+			if base.H.regver[r] != v {
+				in.instance++
+				base.H.regver[r] = 1000000 + in.instance
+			}
+		}
+		joinKnown(base.H, o.H)
+		for r := range base.H.regver {
+			if _, ok := o.H.regver[r]; !ok && base.H.regver[r] != 0 {
+				in.instance++
+				base.H.regver[r] = 1000000 + in.instance
+			}
+		}
+	}
+	return base
+}
+
+func (in *Interp) joinRet(a, b Value, t types.Type, ha, hb *Heap, pend *[]Lin) Value {
+	ta, ok1 := a.(TupleV)
+	tb, ok2 := b.(TupleV)
+	if ok1 && ok2 && len(ta.F) == len(tb.F) && t != nil {
+		if tt, ok := t.(*types.Tuple); ok && tt.Len() == len(ta.F) {
+			n := TupleV{F: make([]Value, len(ta.F))}
+			for i := range ta.F {
+				n.F[i] = in.joinValueH(ta.F[i], tb.F[i], tt.At(i).Type(), ha, hb, pend)
+			}
+			return n
+		}
+	}
+	return in.joinValueH(a, b, t, ha, hb, pend)
 }
 
 func calleeFullName(f *ssa.Function) string {
@@ -171,13 +396,11 @@ func (x *fnExec) havocArgs(s *State, args []Value, external bool, writes bool) {
 				}
 			}
 			if t.Reg != nil && writes {
-				in.instance++
-				s.h.regver[t.Reg] = 4000000 + in.instance
+				in.writeRegion(s.h, t.Reg, nil, nil, 4000000)
 			}
 		case SliceV:
 			if writes && t.Reg != nil {
-				in.instance++
-				s.h.regver[t.Reg] = 4000000 + in.instance
+				in.writeRegion(s.h, t.Reg, &t.Off, &t.Len, 4000000)
 			}
 		case StructV:
 			for _, f := range t.F {
@@ -199,6 +422,9 @@ func (x *fnExec) havocArgs(s *State, args []Value, external bool, writes bool) {
 func (x *fnExec) opaqueCall(s *State, instr ssa.Instruction, name string, callee *ssa.Function, args []Value, resT types.Type, bind func(*State, Value)) []*State {
 	in := x.in
 	in.Notes["external callee assumed not to panic: "+name]++
+	if traceForks && externalWrites(name) {
+		fmt.Printf("[extwrite] %s\n", name)
+	}
 	x.havocArgs(s, args, true, externalWrites(name))
 	var ret Value
 	if resT != nil {
@@ -210,11 +436,22 @@ func (x *fnExec) opaqueCall(s *State, instr ssa.Instruction, name string, callee
 
 func (x *fnExec) opaqueModuleCall(s *State, instr ssa.Instruction, callee *ssa.Function, args []Value, resT types.Type, bind func(*State, Value)) []*State {
 	in := x.in
-	writes := true
 	if callee.Pkg != nil && callee.Pkg.Pkg.Path() == core.ModPath+"/fastlog" {
-		writes = false // fastlog appenders only read their value arguments (checked by C20's rule fastlog-readonly)
+		// fastlog appenders only read their value arguments
+		x.havocArgs(s, args, false, false)
+	} else if in.Cfg.Opaque != nil && in.Cfg.Opaque(callee) {
+		// configured-opaque host-table/session functions copy what they keep and never write into caller slices
+		x.havocArgs(s, args, false, false)
+	} else {
+		// per argument: only parameters the callee may store through invalidate region contents
+		for i, a := range args {
+			w := in.mayWriteParam(callee, i)
+			if traceForks && w {
+				fmt.Printf("[modwrite] %s param %d\n", callee.String(), i)
+			}
+			x.havocArgs(s, []Value{a}, false, w)
+		}
 	}
-	x.havocArgs(s, args, false, writes)
 	var ret Value
 	if resT != nil {
 		ret = in.unknownOf(resT, "mod:"+callee.Name(), false)
@@ -247,6 +484,9 @@ func (x *fnExec) builtin(s *State, instr ssa.Instruction, b *ssa.Builtin, c *ssa
 	switch b.Name() {
 	case "len", "cap":
 		if len(args) == 1 {
+			if sv, ok := args[0].(SliceV); ok && sv.NilOr {
+				args[0] = in.demote(sv)
+			}
 			switch t := args[0].(type) {
 			case SliceV:
 				if b.Name() == "len" {
@@ -279,6 +519,7 @@ func (x *fnExec) builtin(s *State, instr ssa.Instruction, b *ssa.Builtin, c *ssa
 		if len(args) == 2 {
 			dst, ok1 := args[0].(SliceV)
 			src, ok2 := args[1].(SliceV)
+			dst, src = in.demote(dst), in.demote(src)
 			if ok1 && ok2 {
 				// n = min(len(dst), len(src))
 				switch {
@@ -295,8 +536,7 @@ func (x *fnExec) builtin(s *State, instr ssa.Instruction, b *ssa.Builtin, c *ssa
 				}
 			}
 			if ok1 && dst.Reg != nil {
-				in.instance++
-				s.h.regver[dst.Reg] = 5000000 + in.instance
+				in.writeRegion(s.h, dst.Reg, &dst.Off, &dst.Len, 5000000)
 			}
 		}
 		bind(s, IntV{n})
@@ -304,11 +544,12 @@ func (x *fnExec) builtin(s *State, instr ssa.Instruction, b *ssa.Builtin, c *ssa
 	case "append":
 		if len(args) >= 1 {
 			base, ok := args[0].(SliceV)
+			base = in.demote(base)
 			if ok {
 				add := AtomLin(in.Atoms.Fresh("appended", 0, PosInf))
 				if len(args) == 2 {
 					if sv, ok := args[1].(SliceV); ok {
-						add = sv.Len
+						add = in.demote(sv).Len
 					}
 				}
 				nl := base.Len.Add(add)
@@ -352,6 +593,13 @@ func (x *fnExec) builtin(s *State, instr ssa.Instruction, b *ssa.Builtin, c *ssa
 // modelled handles external functions with a precise abstract semantics and module special cases.
 func (x *fnExec) modelled(s *State, instr ssa.Instruction, callee *ssa.Function, name string, args []Value, bind func(*State, Value)) ([]*State, bool) {
 	in := x.in
+	if callee.Blocks == nil || !core.InModule(callee) {
+		for i, a := range args {
+			if sv, ok := a.(SliceV); ok && sv.NilOr {
+				args[i] = in.demote(sv)
+			}
+		}
+	}
 	one := func(v Value) ([]*State, bool) {
 		bind(s, v)
 		return []*State{s}, true
@@ -368,8 +616,8 @@ func (x *fnExec) modelled(s *State, instr ssa.Instruction, callee *ssa.Function,
 		}
 		res := Lin{}
 		for i := int64(0); i < n; i++ {
-			a := in.elemAtom(s.h, sv.Reg, sv.Off.AddC(i), 0, 255)
-			res = res.Add(AtomLin(a).Scale(1 << uint(8*(n-1-i))))
+			a := in.elemLin(s.h, sv.Reg, sv.Off.AddC(i), 0, 255)
+			res = res.Add(a.Scale(1 << uint(8*(n-1-i))))
 		}
 		return one(IntV{res})
 	}
@@ -397,8 +645,31 @@ func (x *fnExec) modelled(s *State, instr ssa.Instruction, callee *ssa.Function,
 			return one(nil)
 		}
 		in.check(s, instr, "extern-len", sv.Len.AddC(-n), fmt.Sprintf("%s needs len >= %d", shortName(name), n))
-		in.instance++
-		s.h.regver[sv.Reg] = 6000000 + in.instance
+		nn := Const(n)
+		in.writeRegion(s.h, sv.Reg, &sv.Off, &nn, 6000000)
+		if o, ok := sv.Off.ConstVal(); ok && strings.Contains(name, "bigEndian") && n <= 4 {
+			if iv, ok := args[len(args)-1].(IntV); ok {
+				if c, ok := iv.L.ConstVal(); ok {
+					for i := int64(0); i < n; i++ {
+						s.h.setKnown(sv.Reg, o+i, Const((c>>uint(8*(n-1-i)))&0xff))
+					}
+				} else if n == 2 {
+					// value = 256*hi + lo with hi, lo bytes
+					hiA := in.Atoms.Struct("hi8("+iv.L.String()+")", 0, 255, iv.L)
+					loA := in.Atoms.Struct("lo8("+iv.L.String()+")", 0, 255, iv.L)
+					if len(hiA.Defs) == 0 {
+						vlo, vhi := iv.L.Bounds()
+						if vlo >= 0 && vhi <= 65535 {
+							eq := AtomLin(hiA).Scale(256).Add(AtomLin(loA)).Sub(iv.L)
+							hiA.Defs = []Lin{eq, eq.Neg()}
+							loA.Defs = []Lin{eq, eq.Neg()}
+						}
+					}
+					s.h.setKnown(sv.Reg, o, AtomLin(hiA))
+					s.h.setKnown(sv.Reg, o+1, AtomLin(loA))
+				}
+			}
+		}
 		return one(nil)
 	}
 	switch name {
@@ -425,13 +696,20 @@ func (x *fnExec) modelled(s *State, instr ssa.Instruction, callee *ssa.Function,
 	case "(net.IP).To16":
 		return x.forkSlices(s, bind, true, 16)
 	case "(net/netip.Addr).AsSlice":
-		return x.forkSlices(s, bind, true, 4, 16)
+		// nil, 4 or 16 bytes: one value with len in [0,16] (exact length never matters to the callers: copy source)
+		r := in.newRegion("AsSlice", false)
+		r.Fresh = true
+		ln := in.Atoms.Fresh("len:AsSlice", 0, 16)
+		return one(SliceV{Reg: r, Len: AtomLin(ln), Cap: AtomLin(ln), MaybeNil: true})
 	case "(net/netip.Addr).As4":
 		return one(ArrayV{Reg: in.newRegion("As4", false), N: 4})
 	case "(net/netip.Addr).As16":
 		return one(ArrayV{Reg: in.newRegion("As16", false), N: 16})
 	case "net.CIDRMask":
-		return x.forkSlices(s, bind, true, 4, 16)
+		r := in.newRegion("CIDRMask", false)
+		r.Fresh = true
+		ln := in.Atoms.Fresh("len:CIDRMask", 0, 16)
+		return one(SliceV{Reg: r, Len: AtomLin(ln), Cap: AtomLin(ln), MaybeNil: true})
 	case "(*sync.Pool).Get":
 		if len(args) == 1 {
 			if p, ok := args[0].(PtrV); ok && p.Cell != nil {
@@ -466,6 +744,39 @@ func (x *fnExec) modelled(s *State, instr ssa.Instruction, callee *ssa.Function,
 		return one(ret)
 	case "fmt.Errorf", "errors.New":
 		return one(IfaceV{Nil: 2})
+	case "(*golang.org/x/net/dns/dnsmessage.Parser).Start":
+		// (Header, error): success implies the 12-byte header was unpacked (message.go: Header.unpack needs headerLen bytes)
+		var msg SliceV
+		ok := false
+		for _, a := range args {
+			if sv, isS := a.(SliceV); isS {
+				msg, ok = sv, true
+			}
+		}
+		resT := resultType(callee.Signature)
+		okS := s.fork()
+		hdrOK := in.unknownOf(resT, "dnsStart", false).(TupleV)
+		hdrOK.F[1] = IfaceV{Nil: 1}
+		if ok && msg.Reg != nil {
+			if !okS.h.feasibleWith(msg.Len.AddC(-12)) {
+				okS = nil
+			} else {
+				okS.h.addFact(msg.Len.AddC(-12))
+			}
+		}
+		hdrErr := in.unknownOf(resT, "dnsStart", false).(TupleV)
+		hdrErr.F[1] = IfaceV{Nil: 2}
+		bind(s, hdrErr)
+		if okS != nil {
+			bind(okS, hdrOK)
+			return []*State{okS, s}, true
+		}
+		return []*State{s}, true
+	case "crypto/rand.Read":
+		in.Notes["crypto/rand.Read assumed not to fail"]++
+		n := in.Atoms.Fresh("randn", 0, PosInf)
+		x.havocArgs(s, args, true, true)
+		return one(TupleV{F: []Value{IntV{AtomLin(n)}, IfaceV{Nil: 1}}})
 	case "strings.Split", "bytes.Split":
 		// at least one element
 		r := in.newRegion("split", false)
